@@ -156,6 +156,7 @@ func addSyncIntrinsics() {
 		return e.c.Bool(active), true
 	}
 	intrinsics[rtPkg+"TimerPending"] = func(e *Engine, s *State, f *Frame, fn *ssa.Function, args []Value, retIdx int, advance bool) (Value, bool) {
+		e.usedModels = true
 		var p *Pointer
 		if iv, ok := args[0].(*IfaceV); ok {
 			if iv.T == nil {
